@@ -40,6 +40,14 @@ Inductive xreason :=
 Definition closed_kind (x : xreason) : bool :=
   match x with XClosedRead | XClosedWrite => true | _ => false end.
 
+
+(* the retry decision of CopyWithControl on a read error that offers Timeout()/Temporary() (net.Error): only an error that is
+   BOTH a timeout and temporary is retried; every other error (permanent timeout, temporary non-timeout, io.EOF,
+   io.ErrUnexpectedEOF, net.ErrClosed, anything else) ends the loop.  Gen/C02.retry_table is the same decision probed on the
+   real loop; Proofs/SideC02.v re-proves that the two agree. *)
+Definition rkind_of_error (is_timeout is_temporary : bool) : rkind :=
+  if is_timeout && is_temporary then RTimeout else RFatal.
+
 (* bytes a reader hands out before its first fatal result: "what the end sent" *)
 Fixpoint readable (rs : list rd) : list byte :=
   match rs with
